@@ -267,3 +267,44 @@ theorem jdelete_react {S : List Nat} {p : Policy} {live : List Nat} (h : JInv S 
   exact ((h.alive y).mp hm.1).2
 
 end OtterVerif.Proofs.CacheJoint
+
+namespace OtterVerif.Impl.Policy
+
+/-- `JustT p live q live'`: q is reached from p by size evictions, each performed in a state whose maximum is exceeded by the
+    total weight of the nodes MAPPED at that moment (`live` shrinks in lock-step: the callback unlinks the evicted node) -/
+inductive JustT : Policy → List Nat → Policy → List Nat → Prop
+  | done (p : Policy) (live : List Nat) : JustT p live p live
+  | evict (p q : Policy) (live live' : List Nat) (x : Nat) : BitVec.ult p.maximum (wsum p live) = true →
+      JustT (evictNode p x) (live.filter (· != x)) q live' → JustT p live q live'
+  | draw (p q : Policy) (live live' : List Nat) (a b : Nat) : JustT (admit p a b).1 live q live' → JustT p live q live'
+
+/-- **every eviction of a pass is justified at the table**: along the chain of Proofs.PolicyJust the policy's running total is,
+    at every eviction, the total weight of the nodes mapped at that moment -/
+theorem justT_of_just {S : List Nat} {p q : Policy} (h : Just p q) :
+    ∀ (live : List Nat), LInv S p → WInv p → (all p).Perm live → ∃ live', JustT p live q live' ∧ (all q).Perm live' := by
+  induction h with
+  | done p => intro live _ _ hp; exact ⟨live, JustT.done p live, hp⟩
+  | evict p q x hg _ ih =>
+    intro live hi hw hp
+    have hk := kill_evictNode p x hi.c
+    have hp' : (all (evictNode p x)).Perm (live.filter (· != x)) := by rw [hk.1]; exact hp.filter _
+    obtain ⟨live', hj, hq⟩ := ih (live.filter (· != x)) (LInv.evictNode x hi) (winv_evictNode x hi.c hw) hp'
+    refine ⟨live', JustT.evict p q live live' x ?_ hj, hq⟩
+    have : p.weightedSize = wsum p live := by rw [show p.weightedSize = wsum p (all p) from hw]; exact wsum_perm p hp
+    rw [← this]; exact hg
+  | draw p q a b _ ih =>
+    intro live hi hw hp
+    have hp' : (all (admit p a b).1).Perm live := by rw [all_admit]; exact hp
+    obtain ⟨live', hj, hq⟩ := ih live (LInv.admit a b hi)
+      (winv_same hw _ (all_admit p a b) (fun x => node_admit p a b x) (ws_admit p a b)) hp'
+    exact ⟨live', JustT.draw p q live live' a b hj, hq⟩
+
+/-- the main loop of evictNodes, started from a state whose deques hold exactly the mapped nodes -/
+theorem evictNodes_justified_at_table {S : List Nat} {p : Policy} (hi : LInv S p) (hw : WInv p) (live : List Nat)
+    (hp : (all p).Perm live) :
+    ∃ live', JustT (evictFromWindow p).1 live (evictNodes p) live' ∧ (all (evictNodes p)).Perm live' := by
+  have hm := mv_evictFromWindow p hi.c
+  have hw' : WInv (evictFromWindow p).1 := winv_mv hm (wk_evictFromWindow p) hw
+  exact justT_of_just (just_evictNodes p) live (hi.mv hm) hw' (hm.1.trans hp)
+
+end OtterVerif.Impl.Policy
